@@ -22,8 +22,8 @@ for pid in sorted(props.CONFIG):
 m = {
     "version": 1,
     "setup_cmd": "bin/setup",
-    "hooks": {"guard": "verif", "enable": "go build -tags verif (the tag only guards files under /verif/harness; no hook is needed inside /repo)",
-              "baseline_off_cmd": "cd /repo && go test -mod=mod -vet=off -count=1 ./...", "source_commits": [], "add_only": True},
+    "hooks": {"guard": "verif", "enable": "go build -tags verif (guards the files of /verif/harness and one file added to /repo: random/verif_hooks.go = random.NewTapeRand, a Rand over a caller-supplied byte source, used by the C15 tape cases)",
+              "baseline_off_cmd": "cd /repo && go test -mod=mod -vet=off -count=1 ./...", "source_commits": ["2b0d2d7"], "add_only": True},
     "engines": [{"name": "lean4-proof+correspondence", "path": "/verif/lean, /verif/harness, /verif/extract, /verif/bin/check",
                  "serves_properties": sorted(props.CONFIG),
                  "kind_free_text": "Lean 4 theorems about an executable model; model tied to /repo by regenerated facts (extract) and by differential execution of model driver vs real code (harness)"}],
